@@ -4,6 +4,7 @@ import numpy as np
 from lib import common as C
 
 GEN = ['Remap']
+IMPORTS = ['C18/bij_ctor_rejects_noninjective', 'C18/bij_inverse_roundtrip', 'C18/bij_compose_unbounded']
 TRUSTED = ['Bijection dictionary algebra (C18)', 'deepcopy semantics of block objects']
 ASSUMPTIONS = ['the Coq theorems state the renaming laws for the abstract M.inv / M sandwich and check the composition order extracted from the source; '
                'the behaviour of every block type under renaming histories is checked on the implementation (oracle), not derived',
@@ -276,9 +277,49 @@ def check_het(rng):
     return out, n
 
 
+def check_dissolve_renamed():
+    """a solved block whose UNKNOWN (and target) has been renamed, then dissolved (evaluated at supplied unknowns): standalone, inside a model, chained renamings,
+    and with an unrelated calibration entry under the old name"""
+    from lib import models as MM
+    from sequence_jacobian import combine
+    m = MM.load()
+    out, n = [], 0
+    _, inner = m.nested()
+    calib = dict(m.CALIB, k=1.35, p=0.3)
+    ref = inner.steady_state(dict(calib), dissolve=[inner.name])
+    for label, mp in (('once', {'k': 'k_r', 'res_k': 'res_r'}), ('chained', None)):
+        if mp is None:
+            r = inner.remap({'k': 'k_a'}).remap({'k_a': 'k_r', 'res_k': 'res_r'})
+            mp = {'k': 'k_r', 'res_k': 'res_r'}
+        else:
+            r = inner.remap(mp)
+        for where in ('standalone', 'in-model', 'stale-old-name'):
+            n += 1
+            cal = {mp.get(k, k): v for k, v in calib.items()}
+            if where == 'stale-old-name':
+                cal['k'] = 99.0
+            blk = r if where != 'in-model' else combine([r, m.pricing, m.extra], name='renamed_nested')
+            try:
+                got = blk.steady_state(dict(cal), dissolve=[inner.name])
+                bad = [k for k in ('k', 'c', 'y', 'res_k') if abs(got[mp.get(k, k)] - ref[k]) > 1e-10]
+            except Exception as ex:
+                bad = [f'raised {type(ex).__name__}: {ex}']
+            if bad:
+                C.push(out, dict(what='dissolving a solved block whose unknown was renamed does not evaluate it at the supplied (renamed) unknown', input=dict(kind='dissolve-renamed', renaming=label, where=where),
+                                 observed=bad[:3], signature=dict(op='dissolve-renamed', where=where)))
+    return out, n
+
+
 def oracle(ctx, hints, broken):
     rng = ctx['rng']
     viol, n = [], 0
+    try:
+        v, k = check_dissolve_renamed()
+    except Exception as ex:
+        import traceback
+        v, k = [dict(what=f'check_dissolve_renamed raised {type(ex).__name__}: {ex}', input=dict(kind='raise', trace=traceback.format_exc()[-500:]), signature=dict(op='raise'))], 1
+    viol += v
+    n += k
     v, k = check_blocks(rng)
     viol += v
     n += k
